@@ -560,10 +560,76 @@ class ExecExpr(ExecCore):
         out = []
         for c, itv in normals:
             view = self.iter_view(c, itv)
+            if view[0] != 'const' and SP.BOUND[0] is None:
+                out.append(self.filtered_symbolic_comp(n, gen, c, view, raises))
+                continue
             if view[0] != 'const':
-                raise Unsupported('filtering comprehension over a symbolic sequence (line %d)' % n.lineno)
+                # bounded refutation mode: every length 0..K, then exactly as for a constant sequence
+                K = SP.BOUND[0]
+                _, seq, elty, axioms = view
+                for ax in axioms:
+                    c.assume(ax)
+                c.assume(z3.Length(seq) <= K)
+                for ln in range(K + 1):
+                    cl = c.copy().assume(z3.Length(seq) == ln, 'f')
+                    if not self.feasible(cl):
+                        continue
+                    its = []
+                    for i in range(ln):
+                        it = SV(seq[i], elty)
+                        cl.assume(shape(cl, it.term, elty))
+                        its.append(it)
+                    out.extend(self._filter_items(n, gen, cl, its, raises))
+                continue
+            out.extend(self._filter_items(n, gen, c, view[1], raises))
+        return out, raises
+
+    def filtered_symbolic_comp(self, n, gen, c, view, raises):
+        """[x for x in xs if c(x)] over a symbolic sequence, unbounded mode: the conditions are evaluated for an arbitrary element
+        (what they can raise is a possible outcome; they must not modify the modelled heap) and the result is a fresh list of
+        which only this is known: it is no longer than xs and each of its elements is an element of xs.  An over-approximation
+        (which elements pass is not recorded): clauses that depend on the filter stay open and go to the bounded mode."""
+        if not (isinstance(n.elt, ast.Name) and isinstance(gen.target, ast.Name) and n.elt.id == gen.target.id):
+            raise Unsupported('filtering comprehension that also maps, over a symbolic sequence (line %d)' % n.lineno)
+        _, seq, elty, axioms = view
+        for ax in axioms:
+            c.assume(ax)
+        b = c.copy()
+        iv = fresh('fi', IntS)
+        b.assume(And(0 <= iv, iv < z3.Length(seq)), 'f')
+        if self.feasible(b):
+            it = SV(seq[iv], elty)
+            b.assume(shape(b, it.term, elty))
+            ns, rs = self.assign(gen.target, it, b)
+            raises.extend(rs)
+            cur = ns
+            for cond in gen.ifs:
+                nxt = []
+                for b1 in cur:
+                    heap_before = (dict(b1.heap), b1.L, b1.DK, b1.DV)
+                    vn, vr = self.ev(cond, b1)
+                    raises.extend(vr)
+                    for b2, _v in vn:
+                        if not (b2.L.eq(heap_before[1]) and b2.DK.eq(heap_before[2]) and b2.DV.eq(heap_before[3]) and
+                                all(f in b2.heap and b2.heap[f].eq(a) for f, a in heap_before[0].items())):
+                            raise Unsupported('comprehension filter modifies the heap (line %d)' % n.lineno)
+                        nxt.append(b2)
+                cur = nxt
+        R = fresh('fcomp', SeqVal)
+        res = new_list_from_seq(c, R, elty)
+        c.assume(z3.Length(R) <= z3.Length(seq))
+        qi = fresh('q_fi', IntS)
+        c.assume(z3.ForAll([qi], Implies(And(0 <= qi, qi < z3.Length(R)),
+                                         And(z3.Contains(seq, z3.Unit(R[qi])), shape(c, R[qi], elty))), patterns=[R[qi]]))
+        nn = fresh('next', IntS)
+        c.assume(nn >= c.nxt)
+        c.nxt = nn
+        return (c, res)
+
+    def _filter_items(self, n, gen, c, items, raises):
+            out = []
             cur = [(c, [])]
-            for it in view[1]:
+            for it in items:
                 nxt = []
                 for c2, vals in cur:
                     ns, rs = self.assign(gen.target, it, c2)
@@ -588,7 +654,7 @@ class ExecExpr(ExecCore):
                                 nxt.extend((c5, vals + [v]) for c5, v in vn)
                 cur = nxt
             out.extend((c2, new_list(c2, vals)) for c2, vals in cur)
-        return out, raises
+            return out
 
     # ------------------------------------------------------------------ operators
     def ex_UnaryOp(self, n, st):
